@@ -186,6 +186,12 @@ class YAMLPath:
         ):
             self.original = path_now[
                 0:len(path_now) - len(removable_segment) + 1]
+        else:
+            # The removed segment was not spelled the way it is rendered
+            # (demarcated, or with its inversion mark up front), so it cannot
+            # be cut from the text; render the remaining segments, instead.
+            self.original = YAMLPath._stringify_yamlpath_segments(
+                segments, self.separator)
 
         return popped_segment
 
